@@ -688,6 +688,11 @@ func executePlannedSelection(eCtx *executionContext, sp *selectionPlan, source i
 		if !ok {
 			continue
 		}
+		if path == nil && eCtx.plan != nil && eCtx.plan.isMutation {
+			// Top-level mutation fields are serial: everything this field
+			// deferred must have run before the next field is resolved.
+			resolved = dethunkValueDepthFirst(resolved)
+		}
 		finalResults[fp.responseKey] = resolved
 	}
 	return finalResults
